@@ -15,7 +15,55 @@ import expr as X
 
 
 def run_entry(text, entry, judge=None, opts=None, extra_modules=(), guide=None):
-    """-> result dict"""
+    """-> result dict; with opts['twin_heap_shift'] the harness is executed a second time with every heap object at a
+    different address and the exported bytes of corresponding paths are compared: output that differs depends on
+    addresses (allocator state), not on the API-visible values"""
+    opts = opts or {}
+    shift = opts.get('twin_heap_shift')
+    if not shift:
+        return _run_entry(text, entry, judge, opts, extra_modules, guide)
+    tags = tuple(opts.get('twin_tags', ('bytes1',)))
+
+    def keyed(ex_):
+        # paths are matched by their path condition (the enumeration order of feasible values may differ between runs)
+        out = {}
+        for r in ex_.results:
+            if r.status == 'ok':
+                key = tuple(sorted(X.digest(c) for c in r.state.pc))
+                out[key] = ([(tag, X.cells_digest(cells)) for tag, cells in r.outs if tag in tags], r)
+        return out
+    r1 = _run_entry(text, entry, judge, opts, extra_modules, guide)
+    k1 = keyed(r1['_ex'])
+    o2 = dict(opts, heap_shift=shift)
+    o2.pop('twin_heap_shift')
+    r2 = _run_entry(text, entry, None, o2, extra_modules, guide)
+    k2 = keyed(r2['_ex'])
+    ex = r1['_ex']
+    common = [k for k in k1 if k in k2]
+    r1['twin_paths'] = len(common)
+    if r1['status'] == 'done' and r2['status'] == 'done':
+        bad = None
+        for k in common:
+            if k1[k][0] != k2[k][0]:
+                bad = k
+                break
+        if bad is not None:
+            st = k1[bad][1].state
+            a, b = k1[bad][0], k2[bad][0]
+            v = symex.Violation('address_dependent', 'the emitted bytes differ when the same object lives at other heap addresses '
+                                '(tags %s): the output depends on addresses / allocator state' % ', '.join(t_ for (t_, d), (t2, d2) in zip(a, b) if d != d2),
+                                ex.model_for(st), list(st.inputs), 'twin run')
+            ex.violations.append(v)
+            r1['violations'].append(v.to_json())
+            r1['obligations_failed'] = r1.get('obligations_failed', 0) + 1
+        else:
+            r1['obligations_normalised'] = r1.get('obligations_normalised', 0) + len(common)
+    r1['wall_s'] = round(r1['wall_s'] + r2['wall_s'], 3)
+    r1['steps'] += r2['steps']
+    return r1
+
+
+def _run_entry(text, entry, judge=None, opts=None, extra_modules=(), guide=None):
     opts = opts or {}
     t0 = time.time()
     X.reset()
@@ -43,6 +91,7 @@ def run_entry(text, entry, judge=None, opts=None, extra_modules=(), guide=None):
     ex.preempt_in_cs = opts.get('preempt_in_cs', False)
     ex.race_detect = opts.get('race_detect', False)
     ex.child_first = opts.get('child_first', False)
+    ex.heap_shift = opts.get('heap_shift', 0)
     if opts.get('concolic_tape') is not None:
         ex.concolic_tape = opts['concolic_tape']
     if opts.get('alloc_policy') is not None:
